@@ -149,8 +149,57 @@ def generate(repo):
         if not re.search(r"for\s+\w+\s+in\s+&targets\." + coll + r"\s*\{\s*if\s*!\s*self\." + setname + r"\.contains", cbody):
             raise Anchor(f"check_op: loop over targets.{coll} against self.{setname} not found")
 
+    # state-dependent target: moved_edge_previous_source + check_op_in + its call site in exec.rs
+    pbody = squash(fn_body(src, "moved_edge_previous_source", "moved_edge_previous_source"))
+    if pbody.strip("{}") != ("ifletWarpOp::UpsertEdge{warp_id,record}=op{if*warp_id==store.warp_id(){returnstore.edge_index"
+                             ".get(&record.id).copied().filter(|prev_from|*prev_from!=record.from);}}None"):
+        raise Anchor("moved_edge_previous_source: body is not the modelled one "
+                     "(UpsertEdge in the store's warp whose id is indexed under a source != record.from)")
+    ibody = squash(fn_body(src, "check_op_in", "FootprintGuard::check_op_in"))
+    if not re.fullmatch(r"self\.check_op\(op\);ifletSome\(prev_from\)=moved_edge_previous_source\(store,op\)\{"
+                        r"if!self\.nodes_write\.contains\(&prev_from\)\{std::panic::panic_any\(FootprintViolation\{"
+                        r"rule_name:self\.rule_name,warp_id:self\.warp_id,kind:ViolationKind::NodeWriteNotDeclared\(prev_from\),"
+                        r"op_kind:op_kind_str\(op\),?\}\);\}\}", ibody):
+        raise Anchor("check_op_in: expected `self.check_op(op)` then the previous source of a moved edge tested "
+                     "against self.nodes_write (NodeWriteNotDeclared, op_kind_str(op))")
+    xsrc = strip_comments(read(repo, "crates/warp-core/src/parallel/exec.rs"))
+    xbody = squash(fn_body(xsrc, "execute_item_enforced", "execute_item_enforced"))
+    if "foropin&delta.ops_ref()[ops_before..]{guard.check_op_in(store,op);}" not in xbody:
+        raise Anchor("execute_item_enforced: post-hoc loop `for op in &delta.ops_ref()[ops_before..] "
+                     "{ guard.check_op_in(store, op); }` not found")
+    if "letguard=&unit.guards[idx];letview=GraphView::new_guarded(store,guard);" not in xbody:
+        raise Anchor("execute_item_enforced: `let guard = &unit.guards[idx]; let view = GraphView::new_guarded(store, guard);` not found")
+
+    # the engine builds each item's guard from the DECLARED footprint, unmodified
+    esrc = strip_comments(read(repo, "crates/warp-core/src/engine_impl.rs"))
+    abody = squash(fn_body(esrc, "attach_footprint_guards", "attach_footprint_guards"))
+    if ("let(footprint,rule_name)=guard_meta.get(&key).cloned().ok_or_else(" not in abody
+            or not re.search(r"FootprintGuard::new\(&footprint,unit\.warp_id,rule_name,is_system,?\)", abody)
+            or len(re.findall(r"\bfootprint\b", abody.replace("footprint_guard", ""))) != 2):
+        raise Anchor("attach_footprint_guards: the guard is not built from the unmodified declared footprint "
+                     "(`let (footprint, rule_name) = guard_meta.get(&key).cloned()…; FootprintGuard::new(&footprint, unit.warp_id, rule_name, is_system)`)")
+    cbody2 = squash(fn_body(esrc, "collect_guard_metadata", "collect_guard_metadata"))
+    if "(rw.footprint.clone(),*name)" not in cbody2:
+        raise Anchor("collect_guard_metadata: `(rw.footprint.clone(), *name)` not found")
+
     # guarded read accessors: which guard check each GraphView accessor performs
     gsrc = strip_comments(read(repo, "crates/warp-core/src/graph_view.rs"))
+    # the API surface of GraphView is exactly the modelled one (no unguarded / unmodelled accessor)
+    gimpl = re.search(r"impl<'a>\s*GraphView<'a>\s*\{", gsrc)
+    if not gimpl:
+        raise Anchor("graph_view.rs: `impl<'a> GraphView<'a>` not found")
+    gi = gsrc[gimpl.end() - 1:balanced(gsrc, gimpl.end() - 1)]
+    api = sorted(re.findall(r"\bfn\s+([a-z_0-9]+)", gi))
+    want = sorted(["new", "new_guarded", "warp_id", "node", "node_attachment", "edges_from", "has_edge", "edge_attachment"])
+    if api != want:
+        raise Anchor(f"GraphView API surface changed: {api} (modelled: {want})")
+    if len(re.findall(r"impl\b[^{;]*\bGraphView\b", gsrc)) != 1:
+        raise Anchor("graph_view.rs: more than one impl block mentions GraphView (Deref / AsRef / extra accessors?)")
+    for fn, deleg in (("node", "node"), ("edges_from", "edges_from"), ("node_attachment", "node_attachment"),
+                      ("edge_attachment", "edge_attachment"), ("has_edge", "has_edge")):
+        b = squash(fn_body(gsrc, fn, f"GraphView::{fn}"))
+        if not re.fullmatch(r"(#\[cfg\([^\]]*\)\])*ifletSome\(guard\)=self\.guard\{.*\}self\.store\." + deleg + r"\(id\)", b):
+            raise Anchor(f"GraphView::{fn}: expected `if let Some(guard) = self.guard {{ check }}` followed by `self.store.{deleg}(id)`")
     reads = {}
     for fn, lean in (("node", "node"), ("edges_from", "adj"), ("node_attachment", "nodeAtt"),
                      ("edge_attachment", "edgeAtt"), ("has_edge", "hasEdge")):
@@ -221,6 +270,16 @@ def generate(repo):
     for v in order_v:
         n, e, a, inst, warp = rows[v]
         out += f"  | {VARS[v][0]} => {{ nodes := {lst(n)}, edges := {lst(e)}, atts := {lst(a)}, inst := {inst}, warp := {warp} }}\n"
+    out += ("\n/-- `moved_edge_previous_source` for the store `st` of warp `sw`: the source an existing edge is\n"
+            "    currently indexed under, when an `UpsertEdge` moves it to another source. -/\n"
+            "def movedPrev (sw : Nat) (st : Store) : Op → Option Nat\n"
+            "  | .upsertEdge w id src _dst _ty =>\n"
+            "    if w = sw then\n"
+            "      match SMap.find? id st.edges with\n"
+            "      | some r => if r.src ≠ src then some r.src else none\n"
+            "      | none => none\n"
+            "    else none\n"
+            "  | _ => none\n")
     out += "\n/-- `op_kind_str`. -/\ndef opKindStr : OpTag → String\n"
     for v in order_v:
         out += f"  | .{ {'OpenPortal':'openPortal','UpsertWarpInstance':'upsertInstance','DeleteWarpInstance':'deleteInstance','UpsertNode':'upsertNode','DeleteNode':'deleteNode','UpsertEdge':'upsertEdge','DeleteEdge':'deleteEdge','SetAttachment':'setAtt'}[v] } => \"{kinds[v]}\"\n"
